@@ -441,6 +441,13 @@ def programs_for(ctx):
     for depth in (15, 16, 17, 18, 31, 32, 33, 40, 65):
         texts.append(deep_program(rng, depth))
     texts += ['{ {} }', '{ {} x; }', ';{ {;} }', '{ { {} } y(); }', '{{{}}{}}', '{ ; { ; } ; }', '{}{ {} }{}']
+    # the same comment-bearing programs written with CRLF, CR and U+2028 line ends (a comment token must not swallow part of
+    # its line terminator, the printer must still break the line after it)
+    withc = [t for t in texts if '//' in t and '\n' in t and '\r' not in t]
+    for t in withc[:ctx.n(25, 200)]:
+        texts += [t.replace('\n', '\r\n'), t.replace('\n', '\r'), t.replace('\n', '\u2028')]
+    texts += ['function f() {\r\n  // c\r\n  return 1; // d\r\n}\r\n', 'if (a) {\r  // e\r  b;\r}\r',
+              'x = {\r\n  // k\r\n  a: 1 // v\r\n};']
     return texts
 
 
